@@ -729,6 +729,8 @@ def plan(prop, tier, seed, known):
         jobs.append(probe_job(prop, av))
         # a directory handle going stale while a CREATE/MKDIR/SYMLINK through it is between its retries (directed schedules)
         jobs.append({"name": "wingetalloc", "kind": "lin", "also": ["C08"], "driver": ["windows", "-part", "-1", "-parts", "1"]})
+        for k in range(7):   # a file handle whose inode number is given to a new object while a request through it is between its retries
+            jobs.append({"name": "winrecycle%d" % k, "kind": "lin", "also": ["C08"], "driver": ["windows", "-part", "-2", "-parts", "7", "-seed", str(k)]})
         for k in ([(seed * 3 + j) % 32 for j in range(2)] if q else range(0, 32, 2)):
             jobs.append({"name": "win%d" % k, "kind": "lin", "also": ["C08"], "driver": ["windows", "-part", str(k), "-parts", "32"]})
     elif prop == "C12":
@@ -816,6 +818,8 @@ def plan(prop, tier, seed, known):
         for k in sel:
             jobs.append({"name": "win%d" % k, "kind": "lin", "driver": ["windows", "-part", str(k), "-parts", str(parts)]})
         jobs.append({"name": "wingetalloc", "kind": "lin", "driver": ["windows", "-part", "-1", "-parts", "1"]})
+        for k in range(7):   # third family: the inode number is recycled for a new object inside the victim's lock-free window
+            jobs.append({"name": "winrecycle%d" % k, "kind": "lin", "also": ["C08"], "driver": ["windows", "-part", "-2", "-parts", "7", "-seed", str(k)]})
         for i in range(1 if q else 12):   # a crash in the middle of a concurrent history leaves a linearization prefix
             jobs.append(conccrash_job("conccrash%d" % i, seed * 100 + 90 + i, 2 + i % 3, 3 if q else 6, 6 if q else 8, av, 60 if q else 150, 2 if q else 4))
     elif prop == "C16":
